@@ -1419,6 +1419,9 @@ def compute_keypoints(values,
   Returns:
     A list of keypoints of `num_keypoints` length.
   """
+  values = np.asarray(values)
+  if weights is not None:
+    weights = np.asarray(weights)
   # Remove default values before calculating stats.
   non_default_idx = values != default_value
   values = values[non_default_idx]
